@@ -461,7 +461,7 @@ reg("C11", fast=True,
     technique="Coq proof (monotone, in-range query over Q; invariant under any merge policy); verified rank checker; differential correspondence on the exported digest state",
     timeout={"quick": 900, "thorough": 3000})
 reg("C16", needs_cli=True,
-    rule="one input per case for one of twelve parsers (gob / CSV / JSON decoders, DecoderFor, HTTP and JSON target parsers, Buckets.UnmarshalText, the rate, header, max-body, connect-to and resolver-address flag parsers of the real vegeta process): "
+    rule="one input per case for one of twelve parsers or, one case in eight of a thirteenth class, for the report / encode / plot commands reading the bytes from a file (they must end by themselves within 6 s, write at most 64 MiB and not panic) (gob / CSV / JSON decoders, DecoderFor, HTTP and JSON target parsers, Buckets.UnmarshalText, the rate, header, max-body, connect-to and resolver-address flag parsers of the real vegeta process): "
          "10% random bytes, 10% valid documents, 10% valid documents of another format, 70% structured mutations of valid documents (bit flips, deletions, duplications, truncations, splices with another document, insertion / substitution from a dictionary "
          "of separators, blanks, quotes, huge numbers and length prefixes, blank-for-tab style replacements); decoders and targeters are called until they report an error (at most |input|+3 times) and twice more afterwards; @file lines are redirected "
          "into a sandbox directory; every call runs under a 6 s limit (calls are serialised, so the limit is not a load artefact; a parser that hung three times is not called again) with panics recovered and TotalAlloc measured (calls serialised); all cases non-trivial",
